@@ -476,7 +476,7 @@ class Machine(object):
         if k == 'tuple': return St('tuple', {i: s.operand(st, o) for i, o in enumerate(rv[1])})
         if k == 'cast': return s.operand(st, rv[1])
         if k == 'closure':
-            m = re.search(r'@([^}]*)\}', rv[1])
+            m = re.search(r'@([^}]*?)(?: \(#\d+\))?\}', rv[1])
             ops = {i: s.operand(st, o) for i, o in enumerate(rv[2])}
             if rv[1].startswith('{closure@'): return St('{closure@%s}' % m.group(1), ops)
             return En('{coroutine@%s}' % m.group(1), ZERO, {'up': St(None, ops)})
@@ -660,7 +660,7 @@ class Machine(object):
         fn = s.fn_of(st.cp)
         if s.debug: s.stats.setdefault('byfn', {}); s.stats['byfn'][fn.name[-60:]] = s.stats['byfn'].get(fn.name[-60:], 0) + 1
         b = fn.blocks[st.blk]
-        if s.debug and getattr(s, 'trace_thread', None) == th.name: print('      [%s] %s %s  g=%s  term=%s' % (th.name, fn.name.split('::')[-1], st.blk, show(st.g, 1)[:60], (b.term[2][:70] if b.term[0] == 'call' else b.term[0])))
+        if s.debug and getattr(s, 'trace_thread', None) == th.name and (getattr(s, 'debug_model', None) is None or evaluate(st.g, s.debug_model)): print('      [%s] %s %s  g=%s  term=%s' % (th.name, fn.name.split('::')[-1], st.blk, show(st.g, 1)[:60], (b.term[2][:70] if b.term[0] == 'call' else b.term[0])))
         for stm in b.stmts: s.exec_stmt(st, stm)
         t = b.term; k = t[0]; g = st.g
         if k == 'goto': st.blk = t[1]; s.push(st)
@@ -674,7 +674,11 @@ class Machine(object):
             for val, tgt in t[2]:
                 if v.sort == 'B': c = v if val else Not(v)
                 else: c = Eq(v, BV(val))
+                c0 = c
                 c = restrict(c, g)
+                dm = getattr(s, 'debug_model', None)
+                if dm is not None and evaluate(g, dm) and evaluate(c0, dm) and not evaluate(And(g, c), dm):
+                    print('   BAD ARM', fn.name[-40:], st.blk, val, 'c0', show(c0, 2)[:200], '| restricted', show(c, 2)[:100], '| and', show(And(g, c), 1)[:100], '| g', show(g, 2)[:300])
                 succ.append((tgt, And(g, c))); taken = Or(taken, c)
             if t[3]:
                 if cs is not None:
@@ -683,6 +687,8 @@ class Machine(object):
                     succ.append((t[3], And(g, rest)))
                 else: succ.append((t[3], And(g, Not(taken))))
             succ = [(b2, g2) for b2, g2 in succ if g2 is not FALSE]
+            dm = getattr(s, 'debug_model', None)
+            if dm is not None and evaluate(g, dm) and not any(evaluate(g2, dm) for _, g2 in succ): print('   DEAD SWITCH in', fn.name[-50:], st.blk, 'value', evaluate(v, dm), 'arms', t[2], t[3], 'consts', None if consts(v) is None else {k: evaluate(x, dm) for k, x in consts(v).items()}, 'eq', [evaluate(Eq(v, BV(k)), dm) for k in (0, 1, 2)], 'succ', [(b2, evaluate(g2, dm)) for b2, g2 in succ])
             for i, (b2, g2) in enumerate(succ):
                 n = st if i == len(succ) - 1 else st.clone(g2)
                 n.g = g2; n.blk = b2; s.push(n)
